@@ -170,6 +170,20 @@ def probe_tables():
                 raise common.HarnessError('Response.finalize fails for the valid status %d: %r' % (n, e))
             if b''.join(r.body) == b'':
                 nobody.append(n)
+        # the same with response.stream on (the body is dropped there too once finalize tests the status first)
+        nobody_stream = []
+        for n in valid:
+            r = _cprequest.Response()
+            serving.load(req, r)
+            r.status = n
+            r.stream = True
+            r.body = [b'x']
+            try:
+                r.finalize()
+            except Exception as e:     # noqa: BLE001
+                raise common.HarnessError('Response.finalize (streamed) fails for the valid status %d: %r' % (n, e))
+            if b''.join(r.body) == b'':
+                nobody_stream.append(n)
     finally:
         serving.clear()
     # does AppResponse.close(), called from the `except` block of __init__ before `self.iter_response` exists,
@@ -182,7 +196,7 @@ def probe_tables():
     close_raises = first != '200'
     return {'close_before_iter_raises': close_raises, 'valid': _ranges(valid), 'falsy': falsy, 'he_ok': _ranges(he_ok), 'he_exc': _ranges(he_exc),
             'he_fallback': sorted(he_fallback)[0], 'hr_ok': _ranges(hr_ok), 'hr_known': hr_known,
-            'nobody': _ranges(nobody), 'hookpoints': list(_cprequest.hookpoints)}
+            'nobody': _ranges(nobody), 'nobody_stream': _ranges(nobody_stream), 'hookpoints': list(_cprequest.hookpoints)}
 
 
 def tables(ctx=None):
@@ -221,6 +235,9 @@ def redirectKnownCodes : List Nat := %s
 /-- valid codes for which `Response.finalize` drops the body -/
 def noBodyRanges : List (Nat × Nat) := %s
 
+/-- the same with `response.stream` on (empty before finalize tested the status ahead of `self.stream`) -/
+def noBodyStreamRanges : List (Nat × Nat) := %s
+
 /-- `cherrypy._cprequest.hookpoints` -/
 def hookpointCount : Nat := %d
 
@@ -232,7 +249,8 @@ def closeBeforeIterRaises : Bool := %s
 end CpModel.Gen.Pipeline
 """ % (TABLE_LIMIT - 1, _lean_ranges(t['valid']), t['falsy'], _lean_ranges(t['he_ok']), _lean_ranges(t['he_exc']),
        t['he_fallback'], _lean_ranges(t['hr_ok']), '[' + ', '.join(map(str, t['hr_known'])) + ']',
-       _lean_ranges(t['nobody']), len(t['hookpoints']), 'true' if t['close_before_iter_raises'] else 'false')
+       _lean_ranges(t['nobody']), _lean_ranges(t['nobody_stream']), len(t['hookpoints']),
+       'true' if t['close_before_iter_raises'] else 'false')
     return {'CpModel/Gen/PipelineTables.lean': src}
 
 
